@@ -142,9 +142,10 @@ def absent_keywords(db, kwlimit, g):
     cands.append(('random', bytes([g.randrange(1, 256)]) + g.randbytes(5)))
     cands.append(('maxlen', bytes([g.randrange(1, 256)]) + g.randbytes(kwlimit - 1)))
     cands.append(('single', bytes([g.randrange(1, 256)])))
+    cands.append(('empty', b''))
     out, seen = [], set(stored)
     for tag, w in cands:
-        if w and w[0] != 0 and len(w) <= kwlimit and w not in seen:
+        if (tag == 'empty' or (w and w[0] != 0)) and len(w) <= kwlimit and w not in seen:
             seen.add(w)
             out.append((tag, w))
     return out
